@@ -31,6 +31,7 @@ def run(ctx, chk):
     r2(ctx, chk)
     r3(ctx, chk)
     r4(ctx, chk)
+    r5(ctx, chk)
 
 
 def r1(ctx, chk):
@@ -161,3 +162,37 @@ def r4(ctx, chk):
                    key={"function": e.fn.key, "construct": "complete date %s: %s %s" % (label, e.kind, e.field), "text": " ".join(e.text.split())[:50]},
                    file=e.fn.file, function=e.fn.qual, line=e.node.lineno)
     chk.floor(rule, len(effs), 8, "result-changing statements examined")
+
+
+def r5(ctx, chk):
+    """lexer and directive tables the standard formats rely on"""
+    rule = "C01.R5"
+    import string
+    ix = ctx.ix
+    T = ix.cls("dateparser.parser:tokenizer")
+    digits = ast.literal_eval(T.attrs["digits"]) if "digits" in T.attrs else None
+    letters = ast.literal_eval(T.attrs["letters"]) if "letters" in T.attrs else None
+    chk.ob(rule, "tokenizer.digits is 0-9 plus ':'", digits is not None and set(digits) == set(string.digits + ":"), "is %r" % digits,
+           key={"construct": "tokenizer.digits"}, file="dateparser/parser.py", function="tokenizer", line=None)
+    chk.ob(rule, "tokenizer.letters is the ASCII alphabet in both cases", letters is not None and set(letters) == set(string.ascii_letters), "is %r" % letters,
+           key={"construct": "tokenizer.letters"}, file="dateparser/parser.py", function="tokenizer", line=None)
+    pat, _ = rx.module_regex(ix, "dateparser.parser", "MICROSECOND")
+    chk.ob(rule, "MICROSECOND accepts 1..6 digits (the width the fraction is padded to)", pat == r"\d{1,6}", "pattern %r" % pat,
+           key={"construct": "MICROSECOND"}, file="dateparser/parser.py", function="<module>", line=None)
+    P_ = ix.cls("dateparser.parser:_parser")
+    ad = P_.attrs.get("alpha_directives")
+    t = " ".join(ast.unparse(ad).split()) if ad is not None else ""
+    ok = "('weekday', ['%A', '%a'])" in t and "('month', ['%B', '%b'])" in t
+    chk.ob(rule, "alphabetic tokens are tried as weekday (%A, %a) then month (%B, %b)", ok, t[:80],
+           key={"construct": "alpha_directives"}, file="dateparser/parser.py", function="_parser", line=None)
+    dset = module_literal(ctx.repo, "dateparser_data/settings.py", "settings")
+    chk.ob(rule, "the ISO 'T' separator is a default skip token", "t" in dset.get("SKIP_TOKENS", []), "SKIP_TOKENS default %s" % dset.get("SKIP_TOKENS"),
+           key={"construct": "SKIP_TOKENS t"}, file="dateparser_data/settings.py", function="settings", line=None)
+    init = ix.func("dateparser.parser:_parser.__init__")
+    sk = [n.value for n in iter_own_nodes(init.node) if isinstance(n, ast.Assign) and ast.unparse(n.targets[0]) == "skip_tokens"]
+    ok = bool(sk) and "t" in ast.literal_eval(sk[0])
+    chk.ob(rule, "the absolute parser ignores a bare 't' token", ok, "", key={"construct": "parser skip t"}, file=init.file, function=init.qual, line=init.node.lineno)
+    # default parsers try timestamp first, then relative, custom formats, absolute
+    dp = module_literal(ctx.repo, "dateparser_data/settings.py", "default_parsers")
+    chk.ob(rule, "default parser order: timestamp, relative-time, custom-formats, absolute-time", dp == ["timestamp", "relative-time", "custom-formats", "absolute-time"],
+           "is %s" % dp, key={"construct": "default_parsers"}, file="dateparser_data/settings.py", function="default_parsers", line=None)
